@@ -1731,9 +1731,19 @@ func resolveIndex(v, index reflect.Value, indexAsStr string) (reflect.Value, err
 		// Slow path: use reflect directly
 		tField, ok := typ.FieldByName(key)
 		if ok {
-			field := v.FieldByIndex(tField.Index)
 			if tField.PkgPath != "" { // field is unexported
 				return reflect.Value{}, fmt.Errorf("%s is an unexported field of struct type %s", indexAsStr, v.Type())
+			}
+			// like v.FieldByIndex(tField.Index), but a nil embedded pointer on the way is an error, not a panic
+			field := v
+			for _, i := range tField.Index {
+				if field.Kind() == reflect.Ptr {
+					if field.IsNil() {
+						return reflect.Value{}, fmt.Errorf("nil pointer evaluating %s.%s (embedded %s is nil)", v.Type(), indexAsStr, field.Type())
+					}
+					field = field.Elem()
+				}
+				field = field.Field(i)
 			}
 			return indirectEface(field), nil
 		}
